@@ -178,8 +178,17 @@ where
 }
 
 /// Execute the request with hedging strategy
+/// Waits until `service` is ready, then calls it (readiness errors surface as errors).
+async fn call_when_ready<S, Req>(service: &mut S, req: Req) -> Result<S::Response, S::Error>
+where
+    S: Service<Req>,
+{
+    futures::future::poll_fn(|cx| service.poll_ready(cx)).await?;
+    service.call(req).await
+}
+
 async fn execute_with_hedging<S, Req>(
-    service: S,
+    mut service: S,
     req: Req,
     config: Arc<HedgeConfig>,
 ) -> Result<S::Response, HedgeError<S::Error>>
@@ -204,12 +213,14 @@ where
     // Channel to collect results from all attempts
     let (tx, mut rx) = mpsc::channel::<(usize, Result<S::Response, S::Error>)>(max_attempts);
 
-    // Spawn primary request
-    let mut service_clone = service.clone();
+    // Spawn primary request on the instance the caller saw ready; hedges get clones,
+    // which have to become ready themselves before they are called
+    let mut primary = service.clone();
+    std::mem::swap(&mut primary, &mut service);
     let req_clone = req.clone();
     let tx_clone = tx.clone();
     tokio::spawn(async move {
-        let result = service_clone.call(req_clone).await;
+        let result = primary.call(req_clone).await;
         let _ = tx_clone.send((0, result)).await;
     });
 
@@ -292,7 +303,7 @@ where
                             let r = req.clone();
                             let tx_c = tx.clone();
                             tokio::spawn(async move {
-                                let result = svc.call(r).await;
+                                let result = call_when_ready(&mut svc, r).await;
                                 let _ = tx_c.send((attempt_num, result)).await;
                             });
 
@@ -358,7 +369,7 @@ where
                     let r = req.clone();
                     let tx_c = tx.clone();
                     tokio::spawn(async move {
-                        let result = svc.call(r).await;
+                        let result = call_when_ready(&mut svc, r).await;
                         let _ = tx_c.send((i, result)).await;
                     });
                 }
